@@ -224,7 +224,7 @@ Theorem encode64_meta_ok vs : vs <> [] ->
 Proof.
   intro Hne. cbv zeta. unfold encode64_meta. cbv zeta.
   assert (0 < N.of_nat (length vs)) by (destruct vs; [congruence|cbn [length]; lia]).
-  destruct (N.of_nat (length vs) =? 0) eqn:E; [lia|]. cbn [m_count m_encodedBytes m_blockCount m_lastBlockSize m_maxBitWidth].
+  destruct (N.of_nat (length vs) =? 0) eqn:E; [lia|]. cbn [m_count m_encodedBytes m_blockCount m_lastBlockSize m_maxBitWidth]. rewrite nlen_eq.
   repeat split.
   - f_equal. lia.
   - set (n := N.of_nat (length vs)) in *. destruct (n mod 128 =? 0) eqn:F; lia.
